@@ -825,7 +825,7 @@ def translate(repo):
     out = ['(* GENERATED on every run by tools/props/c19_translate.py from src/channel_uri.rs and',
            '   src/channel_uri_string_builder.rs of the repository under check. Do not edit. *)',
            'From Coq Require Import ZArith List String.',
-           'Require Import V.Generated.GenConsts V.Model.UriTypes.',
+           'Require Import V.Generated.GenConsts.', 'Require Import V.Model.UriTypes.',
            'Import ListNotations.', 'Open Scope Z_scope.', 'Local Open Scope string_scope.', '']
     for n, v in consts:
         out.append('Definition %s : str := %s.  (* "%s" *)' % (n, cps(v), coq_comment_safe(v)))
